@@ -24,8 +24,8 @@ CLAIMS = {
           "Coq proof of skeleton invariants over R + bit-exact correspondence", "3/C03", True),
  "C04": C("Coq theorems: on binary64 a NaN error norm fails every comparison and Rust's min/max drop NaN (Floats.FloatAxioms), rejections never enlarge the step (real semantics), a finite budget bounds the number of attempts. Float-level termination with an unlimited budget is not proved: watchdog runs on pathological problems." + TIE,
           "Coq proof of the termination mechanism + watchdog differential runs", "3/C04", True),
- "C05": C("Coq theorem (any number type, any interpolant): the t_eval scan of an accepted step consumes exactly the pending requested times not beyond the step end and reports, in order, bit for bit and with the interpolant's value, those not before the step start." + TIE + " Grid-aware placements (inside, on a boundary, +-1 ulp, +-1e-12, +-1e-9).",
-          "Coq proof of the sampling loop + bit-exact correspondence", "3/C05", True),
+ "C05": C("Coq theorems: (any number type, any interpolant) the t_eval scan of an accepted step consumes exactly the pending requested times not beyond the step end and reports, in order, bit for bit and with the interpolant's value, those not before the step start; (reals, whole run) for any slack >= 0, any chain of accepted steps in either direction with any interpolants and any requested times sorted in the direction of integration inside the span, the initial callback plus the per-step scans report exactly the requested list -- same values, order, duplicates, nothing skipped or added -- with one state per time; the handler's `sample` is those scans. Not theorems: the terminal-event branch with t_eval, independence of dense_output (replay), and number types with rounding." + TIE + " Grid-aware placements (inside, on a boundary, +-1 ulp, +-1e-12, +-1e-9).",
+          "Coq proof of the sampling loop and of the whole-run invariant + bit-exact correspondence", "3/C05", True),
  "C06": C("Coq theorems over the reals, every dimension n, every h<>0 of either sign, every value of the stage derivatives: the DOPRI5, DOP853, RK4 and RK23 interpolants equal the old state at the left end and the new state at the right end of the step (RK23 via the exact rationals of the source constants), the Radau collocation polynomial (coefficient blocks built as in the accepted branch) equals the old state at the left end and y+Z3 at the right end; on a contiguous chain of segments sol(t) is evaluated for every t between the first and last covered time by a segment containing t, is OutOfRange outside and NotEnabled without dense output; the handler stores exactly the step's interpolant. Not proved: the BDF difference polynomial (history rescaling) -- replay + oracle only." + TIE,
           "Coq proof (interpolant endpoint identities, no-gap lookup) + bit-exact correspondence + dense-output oracles", "3/C06", True),
  "C07": C("Coq theorems for DOPRI5 (q=4), RK23 (q=3) and RK4's cubic Hermite (q=3), every dimension, h<>0 of either sign, every theta and stage values: (link, over the reals) the model's interpolant is the continuous Runge-Kutta formula y + h*sum_j b_j(theta) k_j with the weight polynomials assembled from the source constants; (order, exact rationals) those polynomials satisfy the continuous order conditions sum_j b_j(theta) Phi_j(t) = theta^|t|/gamma(t) for every rooted tree up to q, and DOPRI5's fail at order 5; the kernels produce attempts of the assumed shape. Uniform O(h^(q+1)) then follows by textbook theory (not formalised). Also: DOP853 (q=7), order part only: the 16-stage weight polynomials assembled from the source constants satisfy every continuous order condition up to order 7 (scaled integers, 1e-24) and fail at order 8; Radau: the dense output is the cubic through (0,y),(C1,y+Z1),(C2,y+Z2),(1,y+Z3), i.e. the collocation polynomial (order 3 by collocation theory). Not proved: the real-number link of DOP853's interpolate to its weight polynomials, BDF -- replay and slope experiment only." + TIE,
